@@ -49,7 +49,11 @@ impl SuperficialLossInfo {
     ) -> GreaterEqualZeroDecimal {
         let zero = GreaterEqualZeroDecimal::zero();
         let mut total = GreaterEqualZeroDecimal::zero();
-        for af in &self.buying_affiliates {
+        // Add in sorted affiliate order: Decimal addition rounds once the mantissa
+        // is full, so the sum must not follow the set's per-process iteration order.
+        let mut sorted_afs: Vec<&Affiliate> = self.buying_affiliates.iter().collect();
+        sorted_afs.sort_by(|a, b| a.id().cmp(b.id()));
+        for af in sorted_afs {
             total +=
                 *self.active_affiliate_spladj_shares_at_eop.get(af).unwrap_or(&zero);
         }
